@@ -7,6 +7,7 @@ from c07 import okmount
 
 PROP = 'C19'
 PATHS = [[('N', 1)], [('N', 2), ('N', 3)], [('N', 4), ('N', 5), ('N', 6)], [('N', 7)], [('N', 2), ('N', 8)]]
+MANY = [[('N', 20 + j)] for j in range(8)] + [[('N', 30), ('N', 31), ('N', 32), ('N', 33), ('N', 34 + j)] for j in range(3)] + [[('N', 40 + j), ('N', 41)] for j in range(4)]
 
 def replay_steps(case, steps):
     for st in steps:
@@ -19,7 +20,7 @@ def probe(g, case, extra_inodes):
     if case.dead: return
     case.do({'k': 'Q'})
     c07.probe_mount_paths(g, case, [])
-    for d in [ROOT_INO, 2, 3, 4]:
+    for d in [ROOT_INO, 2, 3, 4, 9, 10, 11, 12]:
         if case.dead: return
         g.request('readdir', d, size=4096, offset=0, limit=100, uid=1005, gid=100007)
         g.request('readdirplus', d, size=4096, offset=0, limit=100, uid=1005, gid=100007)
@@ -38,10 +39,10 @@ def probe(g, case, extra_inodes):
         g.request('lookup', ROOT_INO, name=('norm', 90), uid=0, gid=0)
         g.umount(p)
 
-def base_history(sess, rng, tb, cfg, n, use_maps, root_mount=False):
+def base_history(sess, rng, tb, cfg, n, use_maps, root_mount=False, many=False):
     """run B: the history without any save/restore"""
     c = Case(sess, cfg, tb); g = HistoryGen(c, rng, use_maps=use_maps)
-    paths = [mk_path(rng, [], noise=False)] if root_mount else [mk_path(rng, p, noise=False) for p in PATHS]
+    paths = [mk_path(rng, [], noise=False)] if root_mount else [mk_path(rng, p, noise=False) for p in (MANY if many else PATHS)]
     for _ in range(n):
         if c.dead: break
         r = rng.random()
@@ -113,8 +114,9 @@ def gen_cases(sess, rng, tb, tier, findings):
     for i in range(6 if q else 60):
         use_maps = i % 3 != 0
         gm = gen_mapping(rng) if (use_maps and rng.random() < 0.6) else None
-        plans.append(dict(cfg={'gmap': gm, 'rm': int(rng.random() < 0.4), 'no_open': int(rng.random() < 0.5), 'no_opendir': int(rng.random() < 0.5)},
-                          use_maps=use_maps, root=(i % 5 == 4), n=rng.randrange(8, 30)))
+        plans.append(dict(cfg={'gmap': gm, 'rm': int(rng.random() < 0.4), 'no_open': int(rng.random() < 0.5), 'no_opendir': int(rng.random() < 0.5),
+                               'no_writeback': int(rng.random() < 0.5), 'killpriv_v2': int(rng.random() < 0.5), 'no_readdir': int(rng.random() < 0.5), 'seal_size': int(rng.random() < 0.5)},
+                          use_maps=use_maps, root=(i % 5 == 4), n=rng.randrange(8, 30), many=(i % 5 == 2)))
     # the two situations of the known findings, deterministically: INIT without capability bits; global mapping and a
     # fresh Vfs built with VfsOptions::default()
     cfg0 = {'gmap': (0, 1000, 65536), 'rm': 0, 'no_open': 1, 'no_opendir': 1}
@@ -126,7 +128,7 @@ def gen_cases(sess, rng, tb, tier, findings):
         A, B, n1 = variant(sess, rng, tb, cfg0, steps, len(steps), 2, fresh, [(1 << 56) | 1])
         evals += compare(A, B, n1, findings, cfg0, 2, fresh); tie_cases.append(A)
     for pl in plans:
-        base, g = base_history(sess, rng, tb, pl['cfg'], pl['n'], pl['use_maps'], pl['root']); base.finish()
+        base, g = base_history(sess, rng, tb, pl['cfg'], pl['n'] + (25 if pl['many'] else 0), pl['use_maps'], pl['root'], pl['many']); base.finish()
         issued = sorted(set(g.pool))[:4]
         per_mount_maps = any(st['k'] == 'M' and st['map'] is not None for st in base.steps)
         n = len(base.steps)
